@@ -312,6 +312,8 @@ func propC16(c *Ctx) {
 	rcf := c.Rule("copy-fields", "copying an error value keeps all of its fields: RuntimeError.Copy carries the file set (without it a derived error prints '-' for every trace position) and the trace", 2)
 	ruleCopyFields(c, rcf, "Error", "RuntimeError")
 
+	rlr := c.Rule("lookahead-restore", "a deferred rewind of the scanner restores every field the stepping function reads before writing (offsets and the current character): the line table gains no phantom line starts", 1)
+	ruleLookaheadRestore(c, rlr)
 	ren := c.Rule("emit-node", "a function compiling a syntax node never emits an instruction with a nil node (every instruction it emits has a source position: any of them can follow a call)", 1)
 	ruleEmitNode(c, ren)
 
